@@ -44,6 +44,29 @@ type Project struct {
 	Self     bool    `json:"self,omitempty"`      // register the root in itself under RootName
 	Types    []Named `json:"types,omitempty"`     // in registration order
 	Rules    []Named `json:"rules,omitempty"`     // in registration order
+	// Nest: every schema (the root and each type) registers only the types its own text names; the
+	// types behind those are registered on the types that name them (a client that resolves
+	// references where it finds them). Default: the root registers every type.
+	Nest bool `json:"nest,omitempty"`
+}
+
+// names reports whether text mentions the type name (followed by a character that cannot continue it).
+func names(text, name string) bool {
+	for i := 0; ; {
+		j := strings.Index(text[i:], name)
+		if j < 0 {
+			return false
+		}
+		end := i + j + len(name)
+		if end == len(text) {
+			return true
+		}
+		c := text[end]
+		if !(c == '_' || c == '-' || c >= '0' && c <= '9' || c >= 'a' && c <= 'z' || c >= 'A' && c <= 'Z') {
+			return true
+		}
+		i = end
+	}
 }
 
 func (p Project) Name() string {
@@ -226,10 +249,13 @@ func BuildSharing(p Project, from *Built) *Built {
 			}
 		})
 	}
+	var objs []schema.Schema
 	for _, t := range p.Types {
 		t := t
 		var ts schema.Schema
-		if from != nil && from.Types[t.Name] != nil && from.typeText(t.Name) == typeKey(t) {
+		// (regex types are made anew: an RSchema hands out the examples of a seeded stream one after the
+		// other, so what a second root schema gets from the same object is the next one by design)
+		if from != nil && !t.Regex && from.Types[t.Name] != nil && from.typeText(t.Name) == typeKey(t) {
 			ts = from.Types[t.Name]
 		} else if t.Regex {
 			ts = regex.New(t.FileName(), t.Text)
@@ -243,6 +269,30 @@ func BuildSharing(p Project, from *Built) *Built {
 			ts = js
 		}
 		b.Types[t.Name] = ts
+		objs = append(objs, ts)
+	}
+	if p.Nest {
+		// innermost registrations first: a type is complete before it is registered anywhere
+		for i := len(p.Types) - 1; i >= 0; i-- {
+			t := p.Types[i]
+			js, ok := b.Types[t.Name].(*jschema.JSchema)
+			if !ok {
+				continue
+			}
+			for _, u := range p.Types {
+				u := u
+				if u.Name != t.Name && names(t.Text, u.Name) {
+					b.trap("AddType(nested)", func() { _ = js.AddType(u.Name, b.Types[u.Name]) })
+				}
+			}
+		}
+	}
+	for i, t := range p.Types {
+		t := t
+		if p.Nest && !names(p.Root, t.Name) {
+			continue
+		}
+		ts := objs[i]
 		b.trap("AddType", func() {
 			if err := b.S.AddType(t.Name, ts); err != nil {
 				b.AddErr[t.Name] = Describe(err)
